@@ -85,6 +85,10 @@ pub fn case(data: &[u8], prop: &str) -> arbitrary::Result<Case> {
             12 if resize => Step::Resize { n: u.int_in_range(0..=6u8)?, pause: pause(&mut u, pauses)? },
             13 if close => Step::Close { pause: pause(&mut u, pauses)? },
             14 if pauses => Step::Resume { p: u.arbitrary()?, pause: None },
+            15 => {
+                let b: u8 = u.arbitrary()?;
+                if b < 64 { Step::GetNoRuntime { zero_wait: b & 1 == 1 } } else { Step::Status }
+            }
             _ => Step::Status,
         };
         steps.push(s);
